@@ -15,6 +15,7 @@ EXPLANATION = ("Reject-path shape conditions decided on all paths: (R16.1) the c
                "crossbeam channel tests fullness before touching anything; (R16.3) capacity is exactly BUFFER_SIZE: the rings' fullness guards are the exact canonical forms "
                "(shared with C02 R02.2: reserved-but-unpublished slots count, wrapping distance), crossbeam's fullness test is `is_full()` or the equivalent `len >= BUFFER_SIZE`, "
                "and every prelude alias pairs a pool with a ring of the same size and the same synchronisation kind as its channel.")
+EXPLANATION += ' (R16.4) callback polarity: when a ring finds the queue full (empty) it consults report_full_fn (report_empty_fn); the give-up answer None is reachable on the FALSE edge of that answer without another attempt and not on its TRUE edge -- the channels pass the constant false (R16.2), so with the polarity reversed a rejected send spins for ever.'
 ASSUMPTIONS = ["lock-freedom, not wait-freedom: a producer that lost the recede CAS to another overshooting producer retries (bounded by the other producers' progress)",
                "the Arc-based Multi channels and the crossbeam setter sends after their fullness test wait by documented design (excluded by the property)"]
 
